@@ -355,11 +355,12 @@ theorem step_n {w w' : World} (hi : Inv w) {op : Op} (e : step w op = .ok w') : 
       rw [← h.1]; rfl
   | clear order =>
     obtain ⟨d, h⟩ := fstOut_ok e
-    unfold World.clear at h
-    simp only [] at h
-    split at h
-    · simp at h
-    · simp at h; rw [← h.1]
+    obtain ⟨w0, h0, rfl⟩ := clear_eq h
+    unfold World.clearRaw at h0
+    simp only [] at h0
+    split at h0
+    · simp at h0
+    · simp at h0; rw [← h0.1]
   | add id c v =>
     obtain ⟨d, e⟩ := fstOut_ok e
     unfold World.entryAdd at e
